@@ -1,0 +1,26 @@
+//go:build verif
+// +build verif
+
+package pipe
+
+import "sync/atomic"
+
+// Schedule hook of the verification build: a protocol point of this package reports itself through
+// verifHook; the harness may hold the calling goroutine there. Without the build tag `verif`
+// verifHook is an empty function (hook_noverif.go).
+
+var vhook atomic.Value // of func(point, pipe, src string)
+
+// VC10SetPipeHook installs the schedule hook (nil removes it)
+func VC10SetPipeHook(f func(point, pipe, src string)) {
+	if f == nil {
+		f = func(string, string, string) {}
+	}
+	vhook.Store(f)
+}
+
+func verifHook(point, pipe, src string) {
+	if f, ok := vhook.Load().(func(point, pipe, src string)); ok && f != nil {
+		f(point, pipe, src)
+	}
+}
